@@ -42,6 +42,66 @@ def path_elems(path):
     return [e for e, _ in els]
 
 
+def poke(v, seen=None):
+    """edit every mutable container of a value in place"""
+    seen = seen if seen is not None else set()
+    if id(v) in seen:
+        return
+    seen.add(id(v))
+    if isinstance(v, list):
+        for x in v:
+            poke(x, seen)
+        v.append('POKED')
+    elif isinstance(v, dict):
+        for x in v.values():
+            poke(x, seen)
+        v['POKED'] = 1
+    elif isinstance(v, set):
+        v.add('POKED')
+    elif isinstance(v, tuple):
+        for x in v:
+            poke(x, seen)
+
+
+def snapshot_clause(ctx):
+    """a delta is a record of the two values as they were when it was built: editing the inputs in place afterwards changes neither what it accepts nor what it
+    produces, in either direction"""
+    from deepdiff import DeepDiff, Delta
+    from deepdiff.delta import DeltaError
+    fixed = [([{'a': 1, 'b': 2}], [{'c': 3, 'd': 4}]), ({'k': [1, 2]}, {'k': (1, 2)}), ({'k': {'x': [1]}}, {'k': [1]}), ({'a': [1, 2]}, {'a': [1, 2], 'b': {'n': [0]}}),
+             ([[1, 2], 'x'], [{'q': [1]}, 'x']), ({'rows': [{'id': 1, 'v': [1]}, {'id': 2}]}, {'rows': [{'name': 'n', 'w': [2]}, {'id': 2}]}), ({'s': {1, 2}}, {'s': [1, 2]}),
+             ({'a': {'b': {'c': [1, {'d': 2}]}}}, {'a': {'b': 5}}), ([1, [2, [3]]], [1, [2, [4]], [5]])]
+    pairs = fixed + FAM.gen_pairs(ctx, 60 if ctx.thorough() else 12)
+    for (t1, t2) in pairs:
+        for kw in (dict(), dict(threshold_to_diff_deeper=0), dict(zip_ordered_iterables=True)):
+            try:
+                dom = C01.in_domain(t1, t2, **kw)[0] and C01.in_domain(t2, t1, **kw)[0] and not C01.set_member_alias(t1, t2) and not C01.shares_mutable(t2)
+            except Exception:
+                dom = False
+            if not dom:
+                ctx.count('snapshot_out_of_domain'); continue
+            a, b = copy.deepcopy(t1), copy.deepcopy(t2)
+            c1, c2 = copy.deepcopy(t1), copy.deepcopy(t2)
+            case = {'t1': repr(c1), 't2': repr(c2), 'cfg': kw, 'clause': 'the inputs are edited in place after the bidirectional delta was built'}
+            ctx.evaluations += 1
+            try:
+                d = Delta(DeepDiff(a, b, **kw), bidirectional=True, raise_errors=True)
+                poke(a); poke(b)
+                fwd = copy.deepcopy(c1) + d
+                back = copy.deepcopy(c2) - d
+            except DeltaError as e:
+                ctx.violate(case, 'the delta refuses the values it was built from: %s' % str(e)[:100]); continue
+            except Exception as e:
+                ctx.violate(case, 'raised %s: %s' % (type(e).__name__, str(e)[:80])); continue
+            ctx.count('snapshot')
+            if not strict_eq(c1, c2):
+                ctx.nontriv((repr(c1), repr(c2), repr(sorted(kw.items())), 'snapshot'))
+            if not DL.py_eq_t(fwd, c2):
+                ctx.violate(case, 't1 + delta is %r, not the t2 of diff time' % (fwd,))
+            elif not DL.py_eq_t(back, c1):
+                ctx.violate(case, 't2 - delta is %r, not the t1 of diff time' % (back,))
+
+
 def run(ctx, impl_only=False):
     from deepdiff import DeepDiff, Delta
     from deepdiff.delta import DeltaError
@@ -210,7 +270,8 @@ def run(ctx, impl_only=False):
                     else:
                         ctx.count('corruption_logged')
                     model_bases.append((c2, base, out))
-            if not impl_only and FAM.in_universe(t1, t2):
+            # the wire form is a tree: a base that holds one mutable object at two places (F67) is not a value of the model universe
+            if not impl_only and FAM.in_universe(t1, t2) and not C01.shares_mutable(t1) and not C01.shares_mutable(t2):
                 try:
                     pl = DL.canon_delta(ddiff)
                     lines.append(DL.delta_line(t1, t2, t1, t2, True, True, zip_, thr)); metas.append((case, pl + ' ;; ' + fwd + ' ;; ' + rev, None))
@@ -220,6 +281,7 @@ def run(ctx, impl_only=False):
                     ctx.count('out_of_universe')
         if len(ctx.samples) < 5 and i > 12:
             ctx.sample({'t1': repr(t1)[:120], 't2': repr(t2)[:120]})
+    snapshot_clause(ctx)
     # ---- boundary witnesses
     def inv(t1, t2):
         try:
